@@ -43,7 +43,7 @@ CRASH_RULE = ("cases = generated API histories (as for C01..C12); the parent run
 
 def CRASH(mode, focus, q, t, steps=2, shards_q=4, big=False, nops=8, segsize=0):
     args = ["--mode", mode, "--focus", focus, "--nops", str(nops), "--steps", str(steps)] + (["--big"] if big else []) + (["--segsize", str(segsize)] if segsize else [])
-    return {"cmd": "crash", "args": args, "cases": {"quick": max(1, q // shards_q), "thorough": max(1, t // 16)}, "shards": {"quick": shards_q, "thorough": 16}, "per_shard_cases": True}
+    return {"cmd": "crash", "mode": "image", "args": args, "cases": {"quick": max(1, q // shards_q), "thorough": max(1, t // 16)}, "shards": {"quick": shards_q, "thorough": 16}, "per_shard_cases": True}
 
 # directed histories (corpus, fixed seed): 8 KiB rollback segments, six fat commits (one segment each), then rollback(5) / prune + rollback-all,
 # every event of every operation; "nested" additionally crashes at every event of every recovery, each probe on a fresh copy of the crashed image (found F16)
@@ -98,6 +98,17 @@ IMG_RULE = ("cases = generated histories of the history engine (session / overla
 
 # tombstone churn on tiny hash tables under a watchdog (found F9: Nomt::open spinning forever)
 CHURN = {"cmd": "churn", "args": ["--cycles", "150"], "cases": {"quick": 4, "thorough": 4}, "seed": 1, "corpus": True}
+
+# C04 order monitor (Store/TraceOrder.lean) on the Begin / End trace of every state-changing operation of generated histories
+ORDER_RUNS = [{"cmd": "placement", "mode": "image", "args": ["--focus", "general", "--nops", "14"], "cases": {"quick": 24, "thorough": 320}, "shards": {"quick": 6, "thorough": 16}},
+              {"cmd": "placement", "mode": "image", "args": ["--focus", "rollback", "--nops", "14", "--segsize", "8192"], "cases": {"quick": 16, "thorough": 200}, "shards": {"quick": 4, "thorough": 16}},
+              {"cmd": "placement", "mode": "image", "args": ["--focus", "overlay", "--nops", "14"], "cases": {"quick": 8, "thorough": 100}, "shards": {"quick": 2, "thorough": 16}}]
+ORDER_RULE = (" Order monitor: the Lean driver evaluates `checkOrder` (Store/TraceOrder.lean) on the ordered Begin / End events of EVERY state-changing operation of generated histories "
+              "(placement runs) and `checkRecoveryOrder` on the events of EVERY recovery the crash enumeration performs (`recovery <trace>` lines): an effect counts as durable only if it completed "
+              "before an fsync of its file (a directory fsync for creates / unlinks) was issued and that fsync completed; when the meta page is written nothing issued before may be volatile; nothing is "
+              "issued between the meta write and the completion of its fsync; hash-table pages are written only after that and only if a redo log was written before; the redo log is truncated (by a sync "
+              "or by recovery) only when every hash-table page written so far is durable; ln / bbn pages are not written after the switch-over; the operation does not return with the meta page volatile. "
+              "These are the order clauses (`hflushed`, the shape of `post`) of T4.1 / T4.2 / T3.2, decided on the real concurrent trace.")
 
 PROPS = {
     "C07": {
@@ -172,7 +183,7 @@ PROPS = {
     "C05": {
         "lines": ['prove', 'pshash', 'psnext', 'psalloc', 'pslookup'],
         "tags": ['C05'],
-        "runs": DB_SCRIPT(["script-elision-threshold"]) + [DB("kv", 120, 1200, nops=14), DB("overlay", 80, 800, nops=14), DB("reopen", 60, 600, nops=14), DB("kv", 4, 40, nops=14, scale=100, shards_q=4), dict(ALLOC_PROBE), dict(ALLOC_LOOKUP)],
+        "runs": DB_SCRIPT(["script-elision-threshold"]) + [DB("kv", 120, 1200, nops=14), DB("overlay", 80, 800, nops=14), DB("overlay", 120, 1200, nops=16, big=True), DB("reopen", 60, 600, nops=14), DB("kv", 4, 40, nops=14, scale=100, shards_q=4), dict(ALLOC_PROBE), dict(ALLOC_LOOKUP)],
         "rule": DB_RULE + " C05: Session::prove for present keys, absent keys diverging from a present key at interesting depths (page boundaries 6k-1..6k+1, just below the terminal, 246..255) and random keys, on plain / overlay sessions, cold caches after reopen; the proof object must equal the Lean proveSpec (terminal + every sibling) and verify + confirm the session's view with the real verifier.",
         "trusted_base": API_TB, "assumptions": API_ASSUME,
     },
@@ -200,6 +211,7 @@ PROPS = {
     },
     # ---------------- crash / power-loss / fault enumeration (harness/src/crash.rs + cfg(nomt_verif) I/O hook) ----------------
     "C03": {
+        "exclude_tags": ["C04", "C17"],
         "runs": [CRASH("crash", "general", 6, 60, steps=2, shards_q=6), CRASH("crash", "rollback", 3, 30, steps=2, shards_q=3), CRASH("crash", "rollback", 3, 30, steps=2, shards_q=3, nops=12, segsize=8192),
                  CRASH("nested", "general", 2, 20, steps=1, shards_q=2), CRASH("crash", "kv", 2, 20, steps=1, shards_q=2, big=True)] + SCRIPTED("nested") + SCRIPTED("crash"),
         "rule": CRASH_RULE + " C03: process crash (every issued effect stays) at EVERY event index of the chosen operations (session commits, overlay commits, rollbacks), plus nested crashes at every event of the recovery itself (each probe on a fresh copy of the crashed directory), and two directed multi-segment rollback histories with 8 KiB rollback segments. distinct & non-trivial = distinct (operation, event index strictly inside the operation, variant) triples.",
@@ -207,11 +219,12 @@ PROPS = {
     },
     "C04": {
         "runs": [CRASH("power", "general", 4, 40, steps=2, shards_q=4), CRASH("power", "rollback", 2, 20, steps=2, shards_q=2), CRASH("power", "rollback", 4, 40, steps=3, shards_q=4, nops=12, segsize=8192), CRASH("power", "kv", 2, 20, steps=1, shards_q=2, big=True),
-                 CRASH("nested-power", "general", 4, 40, steps=1, shards_q=4), CRASH("nested-power", "rollback", 2, 20, steps=1, shards_q=2, nops=12, segsize=8192)] + SCRIPTED("power"),
-        "rule": CRASH_RULE + " C04: at every event index the child reverts un-fsynced effects before dying: all of them, a seeded random half, and each single one (all single-loss subsets when <= 6 are pending, else a rotating single loss / single survivor); an effect counts as synced only if it COMPLETED before an fsync of its file was ISSUED and that fsync completed. Creates / unlinks of one directory are lost as a suffix in issue order (ordered metadata journal), data pages as arbitrary subsets. nested-power: a process crash at every event, then a power loss (all / a random half of the recovery's own un-fsynced effects) at every event of the recovery (found F17).",
+                 CRASH("nested-power", "general", 4, 40, steps=1, shards_q=4), CRASH("nested-power", "rollback", 2, 20, steps=1, shards_q=2, nops=12, segsize=8192)] + SCRIPTED("power") + ORDER_RUNS,
+        "rule": CRASH_RULE + ORDER_RULE + " C04: at every event index the child reverts un-fsynced effects before dying: all of them, a seeded random half, and each single one (all single-loss subsets when <= 6 are pending, else a rotating single loss / single survivor); an effect counts as synced only if it COMPLETED before an fsync of its file was ISSUED and that fsync completed. Creates / unlinks of one directory are lost as a suffix in issue order (ordered metadata journal), data pages as arbitrary subsets. nested-power: a process crash at every event, then a power loss (all / a random half of the recovery's own un-fsynced effects) at every event of the recovery (found F17).",
         "trusted_base": DISK_TB, "assumptions": DISK_ASSUME + ["4 KiB page atomicity; tmpfs stands in for the device and the hook's journal for the page cache", "ordered metadata journal: creates / unlinks of one directory reach the disk in issue order (a suffix of the un-synced ones is lost), as on ext4 / xfs / btrfs / apfs"],
     },
     "C14": {
+        "exclude_tags": ["C04", "C17"],
         "runs": [dict(CRASH("fault", "kv", 3, 3, steps=3, shards_q=1, nops=10), seed=5), dict(CRASH("fault", "general", 2, 2, steps=2, shards_q=1), seed=2),
                  CRASH("fault", "general", 6, 60, steps=2, shards_q=6), CRASH("fault", "rollback", 3, 30, steps=2, shards_q=3),
                  CRASH("fault", "kv", 4, 40, steps=3, shards_q=4, big=True, nops=10), CHURN],
